@@ -2,6 +2,7 @@
 Custom callable operations
 """
 
+import numpy as np
 import tensorflow as tf
 
 from ..types import Callable
@@ -37,11 +38,11 @@ def predictions_one_hot_callable(
 
     # can be a sklearn model or xgboost model
     elif hasattr(model, 'predict_proba'):
-        pred = model.predict_proba(inputs.numpy())
+        pred = model.predict_proba(np.array(inputs))
 
     # can be another model thus it needs to implement a call function
     else:
-        pred = model(inputs.numpy())
+        pred = model(np.array(inputs))
 
     # make sure that the prediction shape is coherent
     if inputs.shape[0] != 1:
